@@ -152,6 +152,28 @@ def blank_definition(L, r):
 
 
 @defect
+def two_blank_definitions(L, r):
+    # blank texts repeat like any other text
+    a, b = r.sample(range(4), 2)
+    L['synsets'][a]['definitions'].append({'text': r.choice(['', '  ']), 'meta': None})
+    L['synsets'][b]['definitions'].append({'text': r.choice(['', '\t']), 'meta': None})
+
+
+@defect
+def two_senses_without_synset(L, r):
+    # an empty synset reference is a reference like any other: redundant and missing
+    e = L['entries'][r.randrange(4)]
+    e['senses'][0]['synset'] = ''
+    e['senses'].append({'id': e['id'] + '-8', 'synset': '', 'meta': None})
+
+
+@defect
+def two_empty_ids(L, r):
+    L['entries'][2]['id'] = ''
+    L['entries'][3]['id'] = ''
+
+
+@defect
 def blank_example(L, r):
     L['synsets'][r.randrange(4)].setdefault('examples', []).append({'text': r.choice(['', '  ']), 'meta': None})
 
